@@ -42,10 +42,19 @@ type script struct {
 	ErrAfter   int    // bidi/sstream: the server returns its final result after this many messages (-1: after all)
 	Client     string // normal | cancel | deadline
 	ClientAt   int    // cancel / deadline happens after the client has received this many messages
+	// Quirk: API uses that are legal over a real connection and easy to get wrong in a look-alike:
+	//   reuse-msg        the client receives every response into ONE message object (responses count down to 0)
+	//   late-setheader   the server calls SetHeader again after SendHeader (refused by gRPC, never delivered)
+	//   closesend-twice  the client half-closes twice
+	Quirk string
 }
 
 func (s script) String() string {
-	return fmt.Sprintf("%s/header=%s,trailer=%v,n=%d,final=%s,errAfter=%d,client=%s@%d", s.Shape, s.HeaderMode, s.Trailer, s.N, s.Final, s.ErrAfter, s.Client, s.ClientAt)
+	n := fmt.Sprintf("%s/header=%s,trailer=%v,n=%d,final=%s,errAfter=%d,client=%s@%d", s.Shape, s.HeaderMode, s.Trailer, s.N, s.Final, s.ErrAfter, s.Client, s.ClientAt)
+	if s.Quirk != "" {
+		n += ",quirk=" + s.Quirk
+	}
+	return n
 }
 
 var (
@@ -90,6 +99,14 @@ func (s *server) meta(ctx context.Context, sc script, stream grpc.ServerStream) 
 		} else {
 			grpc.SendHeader(ctx, hdrMD)
 		}
+		if sc.Quirk == "late-setheader" {
+			late := metadata.Pairs("x-late", "1")
+			if stream != nil {
+				stream.SetHeader(late)
+			} else {
+				grpc.SetHeader(ctx, late)
+			}
+		}
 	}
 	if sc.Trailer {
 		if stream != nil {
@@ -119,6 +136,9 @@ func (s *server) ServerStream(req *tp.ServerStreamRequest, stream grpc.ServerStr
 			return sc.finalErr()
 		}
 		m := &tp.ServerStreamResponse{Counter: int32(i + 1)}
+		if sc.Quirk == "reuse-msg" {
+			m.Counter = int32(sc.N - 1 - i) // counts down to 0: the last response has no field set
+		}
 		if err := stream.Send(m); err != nil {
 			return err
 		}
@@ -241,6 +261,18 @@ func runClient(c tp.TestApiClient, sc script, mkCtx func(deadline bool) (context
 		}
 		n := 0
 		var held []*tp.ServerStreamResponse
+		if sc.Quirk == "reuse-msg" {
+			one := new(tp.ServerStreamResponse)
+			for {
+				if err := stream.RecvMsg(one); err != nil {
+					tr = append(tr, "err="+outcome(err))
+					break
+				}
+				tr = append(tr, fmt.Sprintf("msg=%d", one.Counter))
+			}
+			h, _ := stream.Header()
+			return append(tr, "header="+userMD(h), "trailer="+userMD(stream.Trailer()))
+		}
 		for {
 			if stop(n) {
 				_, err := stream.Recv()
@@ -314,6 +346,9 @@ func runClient(c tp.TestApiClient, sc script, mkCtx func(deadline bool) (context
 		}
 		if sc.ErrAfter < 0 || sc.ErrAfter >= sc.N {
 			stream.CloseSend()
+			if sc.Quirk == "closesend-twice" {
+				tr = append(tr, "closesend2="+outcome(stream.CloseSend()))
+			}
 		}
 		_, err = stream.Recv()
 		tr = append(tr, "err="+outcome(err))
@@ -461,6 +496,15 @@ func scripts(thorough bool) []script {
 				}
 			}
 		}
+	}
+	for n := 1; n <= maxN; n++ {
+		out = append(out, script{Shape: "sstream", HeaderMode: "set", N: n, Final: "ok", ErrAfter: -1, Client: "normal", Quirk: "reuse-msg"})
+	}
+	for _, shape := range []string{"unary", "sstream", "bidi"} {
+		out = append(out, script{Shape: shape, HeaderMode: "send", Trailer: true, N: 1, Final: "ok", ErrAfter: -1, Client: "normal", Quirk: "late-setheader"})
+	}
+	for n := 0; n <= 1; n++ {
+		out = append(out, script{Shape: "bidi", HeaderMode: "none", N: n, Final: "ok", ErrAfter: -1, Client: "normal", Quirk: "closesend-twice"})
 	}
 	return out
 }
